@@ -416,8 +416,8 @@ def orders(n):
 WRAP_FULL = ["pin", "simples_check_all", "simples_tuple", "simples_frozenset", "simples_Basis",
              "simples_dup", "simples_db", "simples_db_check_all", "av", "av_Basis_rev",
              "av_from_string", "strategy", "strategy_rev_iter", "cli0", "cli1"]
-WRAP_MED = ["pin", "simples_check_all", "simples_db", "simples_db_check_all", "simples_Basis",
-            "av", "strategy", "cli1"]
+WRAP_MED = ["pin", "simples_check_all", "simples_db_check_all", "simples_Basis",
+            "av", "strategy", "cli0"]
 WRAP_LIGHT = ["pin", "simples_db_check_all", "av"]
 
 SUB_OF = {"special": "special", "pin": "pin", "simples": "verdict"}   # everything else: "entry"
@@ -602,7 +602,7 @@ def run_isolated(func, *args):
     return val
 
 
-HISTORY_ENTRIES = ["simples", "simples_db", "av", "strategy", "cli0"]
+HISTORY_ENTRIES = ["simples", "av", "strategy", "cli0"]
 
 
 def ask_sequence(seq, entries):
